@@ -1,6 +1,6 @@
 #!/bin/bash
-# usage: keep_seed.sh <prop> <k>  -- copies a confirmed seed from /tmp/wt/<prop>/_seed into /verif/seeded/<prop>-<k>/
-ID=$1; K=$2; S=/tmp/wt/$ID/_seed; D=/verif/seeded/$ID-$K
+# usage: keep_seed.sh <prop> <k> [root=/tmp/wt] [dstk=k] -- copies a confirmed seed from <root>/<prop>/_seed into /verif/seeded/<prop>-<dstk>/
+ID=$1; K=$2; ROOT=${3:-/tmp/wt}; DK=${4:-$K}; S=$ROOT/$ID/_seed; D=/verif/seeded/$ID-$DK
 grep -q "RESULT confirmed" $S/confirm$K.log || { echo "$ID/$K not confirmed"; exit 1; }
 mkdir -p $D
 cp $S/patch$K.diff $D/patch.diff
